@@ -402,6 +402,7 @@ Proof.
     pose proof (Gdc n s3 W3) as G4. pose proof (Jdc n s3 W3 J3) as J4.
     destruct (dispose_children true f n s3) as [[] s4|er s4]; cbn [bind_res]; [|exact I].
     destruct G4 as (W4 & F4).
+    destruct (alive n s4) eqn:Ha4; cbn [andb negb]; [|exact J4].
     set (B := set_tracker (Some []) (set_current (Some n) s4)).
     pose proof (Gbody c B (W4 : WF B)) as G5. pose proof (Jbody c B (W4 : WF B) (J4 : Jc id B)) as J5.
     destruct (run_body true f c B) as [new s5|er s5]; cbn [bind_res]; [|exact I].
